@@ -51,7 +51,7 @@ def routing(p):
     if len(dl) != 1:
         raise ShapeUnrecognised("%s: expected one local call inside the appender loop, found %d" % (nl.path, len(dl)))
     r["deliver_site"] = dl[0]
-    r["deliver"] = p.fn(dl[0].callee)
+    r["deliver"] = p.fn_loops(dl[0].callee)     # a lazy map(..).find(..) over the filters is the loop it denotes
     ml = p.fn("Logger::max_log_level")
     mret = ml.local_expr(0)
     if mret[0] != "call" or mret[1] not in p.fns:
